@@ -7,11 +7,15 @@ def run(prog, rep, tier):
     rep.clause = ("I1: at every construction of a value_die (12 sites; instantiations merged) the import-less 4-argument form is used only where the "
                   "Dwarf_Die comes from a new navigation origin (unit root, reference followed, location-operation reference) or the value is "
                   "explicitly raw; a DIE obtained by moving inside the unit (parent lookup, child/sibling iteration, re-wrapping get_die()) carries "
-                  "the import chain of the DIE it came from (local provenance dataflow through out-parameters and helper functions).")
+                  "the import chain of the DIE it came from (local provenance dataflow through out-parameters and helper functions); "
+                  "O7: value_cu::cmp and value_abbrev_unit::cmp interpreted on abstract units of two Dwarf files that share section offsets: equal "
+                  "iff the same Dwarf_CU, antisymmetric.")
     rep.not_decided = ("all other navigation laws of C05 (child/parent inverse, unit entry = entry, reachability by root child*, equality of a DIE "
                        "reached twice): they quantify over the DIEs of an input file and libdw's answers.")
-    apply(rep, "I1", "cooked DIEs derived inside a unit keep the import chain", r_dw.i1(prog), 12)
+    apply(rep, "I1", "cooked DIEs derived inside a unit keep the import chain", r_dw.i1(prog), 10)
     apply(rep, "I1c", "import chain and iterator stack move in lockstep", r_dw.i1c(prog), 2)
     apply(rep, "I1b", "the parent takes context and import chain from the climbing cursor", r_dw.i1b(prog), 1)
+    import r_order
+    apply(rep, "O7", "units compare equal exactly when they are the same unit (`unit` of a DIE is the unit that lists it, also across a file and its alt file)", r_order.o7(prog), 2)
     rep.notes.append("exemption: op_cooked_die::operate (reason in rules/r_dw.py I1_EXEMPT)")
     maybe_mutants("C05", rep, tier)
